@@ -416,7 +416,9 @@ impl Session {
                 match r {
                     Ok((enc, ctx)) => {
                         f.ok().kv("enc", out(&enc));
-                        if let Some((bn, es)) = ctx.secrets() {
+                        if a.u("quiet") == 1 {
+                            // residue workloads: the driver must not hold the context's secrets in clear anywhere
+                        } else if let Some((bn, es)) = ctx.secrets() {
                             f.kv("bn", out(&bn)).kv("es", out(&es));
                             setreg(&mut self.regs, &outname, "bn", &bn);
                             setreg(&mut self.regs, &outname, "es", &es);
@@ -437,7 +439,9 @@ impl Session {
                 match r {
                     Ok(ctx) => {
                         f.ok();
-                        if let Some((bn, es)) = ctx.secrets() {
+                        if a.u("quiet") == 1 {
+                            // residue workloads: no clear copy of the secrets in the driver
+                        } else if let Some((bn, es)) = ctx.secrets() {
                             f.kv("bn", out(&bn)).kv("es", out(&es));
                             setreg(&mut self.regs, &outname, "bn", &bn);
                             setreg(&mut self.regs, &outname, "es", &es);
@@ -894,6 +898,51 @@ impl Session {
             "probe_ctl" => {
                 crate::probe::FAIL_SEAL.with(|c| c.set(a.u("fail_seal") as u32));
                 f.ok().kv("seals_seen", crate::probe::SEALS.with(|c| c.get()));
+            }
+            "residue_scan" => {
+                // Is a copy of the context's base nonce / exporter secret left ANYWHERE in the process (outside thread
+                // stacks) once the context has been dropped?  See residue.rs.
+                let name = a.s("ctx");
+                let (cs, cr) = (self.cs.remove(name), self.cr.remove(name));
+                let sec = match (&cs, &cr) {
+                    (Some(c), _) => c.secrets(),
+                    (_, Some(c)) => c.secrets(),
+                    _ => {
+                        f.skip("noctx");
+                        return f;
+                    }
+                };
+                let Some((mut bn, mut es)) = sec else {
+                    f.skip("nohooks");
+                    return f;
+                };
+                crate::residue::mask_in_place(&mut bn);
+                crate::residue::mask_in_place(&mut es);
+                let masked = vec![bn, es];
+                let names = ["bn", "es"];
+                let before = crate::residue::scan(&masked);
+                if let Some(c) = cs {
+                    c.heap_drop();
+                }
+                if let Some(c) = cr {
+                    c.heap_drop();
+                }
+                let after = crate::residue::scan(&masked);
+                f.ok()
+                    .kv("before", crate::residue::summary(&names, &before))
+                    .kv("after", crate::residue::summary(&names, &after))
+                    .kv("regions", crate::residue::regions().len());
+            }
+            "residue_scan_kem" => {
+                let mut rng = ScriptRng::new(a.b("rng").to_vec());
+                match self.kem.as_ref().unwrap().residue_kem(a.b("pkr"), &mut rng) {
+                    Ok((before, after)) => {
+                        f.ok().kv("before", before).kv("after", after);
+                    }
+                    Err(e) => {
+                        f.fail(&e);
+                    }
+                }
             }
             "key_mill" => {
                 let (made, bad) = self.kem.as_ref().unwrap().key_mill(a.b("ikm"), a.u("n"), (a.u("window") as usize).clamp(2, 200));
